@@ -315,7 +315,10 @@ CLAIMED["C06"] = (
     "twice); once all senders have returned the queue is empty and every event has been processed; with callbacks "
     "that themselves send events (any family of nested sends): blocks never overlap, what was begun followed by "
     "what is queued is exactly what was put in put order (global FIFO), nothing is begun twice, and once all "
-    "senders have returned everything put has been processed.  Tied to "
+    "senders have returned everything put has been processed; with callbacks that FAIL while other threads send "
+    "(the drainer clears the queue, releases, looks at the queue once more, re-raises): once all senders have "
+    "returned the queue is empty and the lock free, for every failing set, plan and schedule - and refuted by a "
+    "schedule for the engine without that second look (D26, repaired).  Tied to "
     "/repo by a deterministic scheduler built on sys.settrace that parks every sender thread before every source "
     "line of engines/*.py and event.py and runs one line of one thread at a time following a schedule: every "
     "preemption point of sender 0 crossed with 8 preemption lengths of sender 1 (2 senders), plus random "
@@ -328,12 +331,14 @@ CLAIMED["C06"] = (
     "included) are checked on what happened; further asyncio scenarios cancel the draining task inside a callback "
     "or have one of the concurrently sent events refused (waiting events are dropped, the engine ends idle, a "
     "later send is processed), and a thread scenario keeps a second, unrelated machine busy inside a callback "
-    "meanwhile (its lock must not matter).",
+    "meanwhile (its lock must not matter); thread scenarios in which the callbacks of one event fail (every "
+    "preemption point of the failing sender x several lengths of the other, plus random schedules).",
     "Coq proof (protocol invariants by induction over schedules, all senders / plans / schedules) + schedule-controlled differential correspondence (sys.settrace scheduler)",
     "DESIGN.md 5 C06",
     "Partial: the theorem is about the protocol at source-line granularity; preemption inside one source line "
     "(bytecode level), the atomicity of deque.append / popleft and Lock.acquire under the GIL, and asyncio's own "
-    "scheduler are trusted.  One genuine defect repaired (fix: f9a2952, stranded event).")
+    "scheduler are trusted.  Two genuine defects repaired (fix: f9a2952 event stranded by the race before the "
+    "release; fix: 894918f event stranded when a callback fails), both reproduced on the real engine by the scheduler.")
 
 CLAIMED["C15"] = (
     "Theorems (Properties/C15.v): executing the class body of the a.to(b), b.from_(a), a.to.itself(), "
